@@ -1,6 +1,8 @@
 #!/bin/bash
-# tools/seeded_all.sh [tier] [parallel]  - every kept mutation against the current checks; table in seeded/MATRIX.txt
-cd /verif; TIER=${1:-quick}; P=${2:-4}
-ls seeded | grep -v -E "RESULTS|MATRIX|README" | xargs -P $P -I{} tools/seeded_one.sh {} $TIER | sort > /tmp/matrix_$$.txt
-{ echo "# $(date +%F_%T) repo=$(git -C /repo log --format=%h -1) verif=$(git -C /verif log --format=%h -1) tier=$TIER"; cat /tmp/matrix_$$.txt; } > seeded/MATRIX.txt; rm -f /tmp/matrix_$$.txt
+# tools/seeded_all.sh [tier] [parallel] [filter-regex]  - every kept mutation against the current checks; table in seeded/MATRIX.txt
+# lines are appended to /tmp/matrix_partial.txt as they finish (a run that is cut short still leaves what it covered)
+cd /verif; TIER=${1:-quick}; P=${2:-4}; F=${3:-.}
+: > /tmp/matrix_partial.txt
+ls seeded | grep -v -E "RESULTS|MATRIX|README|REPORTED" | grep -E "$F" | xargs -P $P -I{} sh -c "tools/seeded_one.sh {} $TIER >> /tmp/matrix_partial.txt"
+{ echo "# $(date +%F_%T) repo=$(git -C /repo log --format=%h -1) verif=$(git -C /verif log --format=%h -1) tier=$TIER"; sort /tmp/matrix_partial.txt; } > seeded/MATRIX.txt
 grep -c "rc=1" seeded/MATRIX.txt; grep -v "rc=1" seeded/MATRIX.txt
